@@ -148,6 +148,8 @@ pub enum Fx {
     Reply(u32, u32),
     /// drop the held reply port of call `k` without replying
     Forget(u32),
+    /// `pg::join(group, [myself])`
+    Join(String),
 }
 
 #[derive(Clone, Debug, PartialEq, Eq)]
@@ -174,6 +176,7 @@ impl std::fmt::Display for Seg {
                 Fx::KillSelf => write!(f, "killself ")?,
                 Fx::Reply(k, v) => write!(f, "reply:{k}:{v} ")?,
                 Fx::Forget(k) => write!(f, "forget:{k} ")?,
+                Fx::Join(g) => write!(f, "join:{g} ")?,
             }
         }
         match self.term {
@@ -198,6 +201,7 @@ impl Seg {
                 ["killself"] => Fx::KillSelf,
                 ["reply", k, v] => Fx::Reply(k.parse().ok()?, v.parse().ok()?),
                 ["forget", k] => Fx::Forget(k.parse().ok()?),
+                ["join", g] => Fx::Join(g.to_string()),
                 _ => return None,
             });
         }
@@ -226,9 +230,14 @@ pub struct Shared {
     pub slots: Mutex<Vec<Slot>>,
     /// pid -> case-local actor index
     pub pids: Mutex<HashMap<u64, usize>>,
+    /// prefix that makes registry names / group names unique per case (`c<case>-`)
+    pub tag: Mutex<String>,
 }
 
 impl Shared {
+    pub fn real(&self, n: &str) -> String {
+        format!("{}{}", self.tag.lock().unwrap(), n)
+    }
     pub fn idx_of(&self, id: ractor::ActorId) -> String {
         match self.pids.lock().unwrap().get(&id.pid()) {
             Some(i) => i.to_string(),
@@ -335,6 +344,10 @@ impl Scripted {
                     Fx::Forget(k) => {
                         let had = self.sh.slots.lock().unwrap()[a].held.remove(k).is_some();
                         verif::note(format!("fx forget {k} {}", if had { "Ok" } else { "NoPort" }));
+                    }
+                    Fx::Join(g) => {
+                        ractor::pg::join(self.sh.real(g), vec![me.get_cell()]);
+                        verif::note(format!("fx join {g}"));
                     }
                 }
             }
@@ -469,10 +482,17 @@ impl ActorSlot {
     }
 }
 
+pub type CallFut = Hand<Result<ractor::rpc::CallResult<u32>, MessagingErr<Msg>>>;
+
 pub struct World {
     pub eng: Engine,
     pub sh: Arc<Shared>,
     pub actors: Vec<ActorSlot>,
+    /// registry names / group names mentioned in this case (in order of first mention)
+    pub names: Vec<String>,
+    pub groups: Vec<String>,
+    pub waits: HashMap<u32, Hand<Result<(), ractor::concurrency::Timeout>>>,
+    pub calls: HashMap<u32, CallFut>,
 }
 
 pub fn status_str(s: ActorStatus) -> &'static str {
@@ -517,6 +537,10 @@ impl World {
             eng: Engine::new(),
             sh: Arc::new(Shared::default()),
             actors: Vec::new(),
+            names: Vec::new(),
+            groups: Vec::new(),
+            waits: HashMap::new(),
+            calls: HashMap::new(),
         }
     }
 
@@ -526,16 +550,35 @@ impl World {
 
     /// Create actor `a = actors.len()` (optionally linked to `sup`) and poll the spawn future once:
     /// the cell is created and `pre_start` is entered.
+    pub fn note_name(&mut self, n: &str) {
+        if !self.names.iter().any(|x| x == n) {
+            self.names.push(n.to_string());
+        }
+    }
+    pub fn note_group(&mut self, g: &str) {
+        if !self.groups.iter().any(|x| x == g) {
+            self.groups.push(g.to_string());
+        }
+    }
+
     pub fn spawn(&mut self, sup: Option<usize>) -> usize {
+        self.spawn_named(sup, None)
+    }
+
+    pub fn spawn_named(&mut self, sup: Option<usize>, name: Option<&str>) -> usize {
         let a = self.actors.len();
         self.sh.slots.lock().unwrap().push(Slot::default());
         let handler = Scripted {
             idx: a,
             sh: self.sh.clone(),
         };
+        if let Some(n) = name {
+            self.note_name(n);
+        }
+        let real = name.map(|n| self.sh.real(n));
         let hand: Hand<SpawnRes> = match sup.and_then(|p| self.me(p)) {
-            Some(p) => Hand::new(Actor::spawn_linked(None, handler, (), p.get_cell())),
-            None => Hand::new(Actor::spawn(None, handler, ())),
+            Some(p) => Hand::new(Actor::spawn_linked(real, handler, (), p.get_cell())),
+            None => Hand::new(Actor::spawn(real, handler, ())),
         };
         self.actors.push(ActorSlot {
             spawn: Some(hand),
@@ -597,6 +640,12 @@ impl World {
     }
 
     pub fn resume(&mut self, a: usize, seg: Seg) {
+        for x in &seg.fx {
+            if let Fx::Join(g) = x {
+                let g = g.clone();
+                self.note_group(&g);
+            }
+        }
         if self.actors[a].open.is_none() {
             verif::note("noopen".into());
             return;
@@ -651,6 +700,54 @@ impl World {
                 ))
             }
             None => verif::note("nocell".into()),
+        }
+    }
+
+    /// `wait w a`: create `cell.wait(None)` and poll it once.
+    pub fn wait(&mut self, w: u32, a: usize) {
+        match self.me(a) {
+            Some(me) => {
+                let cell = me.get_cell();
+                self.waits.insert(w, Hand::new(async move { cell.wait(None).await }));
+                self.pollwait(w);
+            }
+            None => verif::note("nocell".into()),
+        }
+    }
+
+    pub fn pollwait(&mut self, w: u32) {
+        match self.waits.get_mut(&w) {
+            Some(h) if h.alive() => match h.poll_once() {
+                Some(_) => verif::note(format!("wait {w} Ready")),
+                None => verif::note(format!("wait {w} Pending")),
+            },
+            _ => verif::note("nowait".into()),
+        }
+    }
+
+    /// `call k a`: `actor.call(|port| Msg::Call(k, port), None)` polled once.
+    pub fn call(&mut self, k: u32, a: usize) {
+        match self.me(a) {
+            Some(me) => {
+                self.calls
+                    .insert(k, Hand::new(async move { me.call(|port| Msg::Call(k, port), None).await }));
+                self.pollcall(k);
+            }
+            None => verif::note("nocell".into()),
+        }
+    }
+
+    pub fn pollcall(&mut self, k: u32) {
+        use ractor::rpc::CallResult;
+        match self.calls.get_mut(&k) {
+            Some(h) if h.alive() => match h.poll_once() {
+                None => verif::note(format!("call {k} Pending")),
+                Some(Ok(CallResult::Success(v))) => verif::note(format!("call {k} Success({v})")),
+                Some(Ok(CallResult::SenderError)) => verif::note(format!("call {k} SenderError")),
+                Some(Ok(CallResult::Timeout)) => verif::note(format!("call {k} Timeout")),
+                Some(Err(e)) => verif::note(format!("call {k} {}", show_send::<Msg>(&Err(e)))),
+            },
+            _ => verif::note("nocall".into()),
         }
     }
 
@@ -731,10 +828,13 @@ impl World {
                     .try_get_supervisor()
                     .map(|p| self.sh.idx_of(p.get_id()))
                     .unwrap_or_else(|| "-".into());
+                let mut kids: Vec<String> =
+                    cell.get_children().iter().map(|c| self.sh.idx_of(c.get_id())).collect();
+                kids.sort();
                 st.push(format!(
                     "{a}:{}/{sup}/{}",
                     status_str(cell.get_status()),
-                    cell.get_children().len()
+                    if kids.is_empty() { "-".to_string() } else { kids.join(",") }
                 ));
             }
         }
@@ -745,10 +845,26 @@ impl World {
             .filter(|(_, s)| s.runnable())
             .map(|(a, _)| a.to_string())
             .collect();
+        let mut tables = Vec::new();
+        for n in &self.names {
+            let who = ractor::registry::where_is(self.sh.real(n))
+                .map(|c| self.sh.idx_of(c.get_id()))
+                .unwrap_or_else(|| "-".into());
+            tables.push(format!("{n}={who}"));
+        }
+        for g in &self.groups {
+            let mut m: Vec<String> = ractor::pg::get_members(&self.sh.real(g))
+                .iter()
+                .map(|c| self.sh.idx_of(c.get_id()))
+                .collect();
+            m.sort();
+            tables.push(format!("{g}={}", if m.is_empty() { "-".to_string() } else { m.join(",") }));
+        }
         format!(
-            "{evs} | {} | run={}",
+            "{evs} | {} | run={} | {}",
             if st.is_empty() { "-".to_string() } else { st.join(" ") },
-            if run.is_empty() { "-".to_string() } else { run.join(",") }
+            if run.is_empty() { "-".to_string() } else { run.join(",") },
+            if tables.is_empty() { "-".to_string() } else { tables.join(" ") }
         )
     }
 
@@ -767,8 +883,12 @@ impl World {
                 self.eng.settle_done(&t).await;
             }
         }
+        self.waits.clear();
+        self.calls.clear();
         self.sh.slots.lock().unwrap().clear();
         self.actors.clear();
+        self.names.clear();
+        self.groups.clear();
         let _ = verif::take_notes();
     }
 }
